@@ -25,7 +25,7 @@ _BUILTIN_TYPES = {t.__name__: t for t in (bool, int, float, complex, str, bytes,
 
 
 NATIVE_MODULE_CALLS = {("inspect", "getattr_static"), ("inspect", "isfunction"), ("inspect", "isclass"), ("inspect", "ismethod")}
-NATIVE_MODULE_CONSTRUCTORS = {("ast", "keyword"), ("ast", "Call"), ("ast", "Name"), ("ast", "Constant")}
+NATIVE_MODULE_CONSTRUCTORS = {("ast", "keyword"), ("ast", "Call"), ("ast", "Name"), ("ast", "Constant"), ("ast", "FormattedValue"), ("ast", "JoinedStr")}
 
 
 class _OpaqueIter(Exception):
